@@ -100,3 +100,25 @@ let run_hist = function
   | _ -> failwith "bad hist case"
 
 let () = register "hist" run_hist
+
+(* TIE-H: the same run, results projected on what an HTTP answer shows: no log id, errors as "<status>:<errorCode>" *)
+let http_err = function
+  | M.EInsufficientFunds -> "400:INSUFFICIENT_FUND" | M.EReferenceConflict -> "409:CONFLICT"
+  | M.EIdempotencyInput -> "400:VALIDATION" | M.EAlreadyReverted -> "400:ALREADY_REVERT"
+  | M.ENotFound -> "404:NOT_FOUND" | M.ENoPostings -> "400:NO_POSTINGS"
+let result_sx_http = function
+  | M.ROk (_, t, hit) -> L [A "ok"; optz t; b01 hit]
+  | M.RErr e -> L [A "err"; S (http_err e)]
+let run_hist_http = function
+  | L [A "histh"; feat; L ops] ->
+    let f = features_of feat in
+    let rec go s ops acc = match ops with
+      | [] -> List.rev acc
+      | L [now; op] :: rest ->
+        (match M.step f (zarg now) s (op_of op) with
+         | M.SPanic -> List.rev (L [L [A "panic"]] :: acc)
+         | M.SR (s', r) -> go s' rest (L [result_sx_http r; state_sx s'] :: acc))
+      | _ -> failwith "bad step" in
+    L [A "trace"; L (go M.init_state ops [])]
+  | _ -> failwith "bad hist case"
+let () = register "histh" run_hist_http
